@@ -20,6 +20,8 @@ pub use crate::relayer::Relayer;
 pub use crate::status::{Status, StatusCode};
 pub use crate::synchronizer::Synchronizer;
 pub use crate::types::{ActiveChain, SyncShared};
+#[cfg(feature = "verif-hooks")]
+pub use crate::types::{InflightBlocks, InflightState, VerifInflightDump};
 use ckb_constant::sync::MAX_BLOCKS_IN_TRANSIT_PER_PEER;
 
 // Time recording window size, ibd period scheduler dynamically adjusts frequency
